@@ -3,6 +3,7 @@
 package upstream
 
 import (
+	"errors"
 	"crypto/tls"
 	"hash"
 	"io"
@@ -253,11 +254,16 @@ func (h *vpHash) BlockSize() int              { return 64 }
 func vpSha256New() hash.Hash { return &vpHash{} }
 
 func vpPbkdf2Key(password, salt []byte, iter, keyLen int, h func() hash.Hash) []byte {
+	// uninterpreted: the key carries its arguments; exactly keyLen bytes like the real function
 	out := []byte("K(")
 	out = append(out, password...)
 	out = append(out, '|')
 	out = append(out, salt...)
-	return append(out, ')')
+	out = append(out, ')')
+	for len(out) < keyLen {
+		out = append(out, '.')
+	}
+	return out[:keyLen]
 }
 
 type vpBlock struct{ key []byte }
@@ -265,7 +271,12 @@ type vpBlock struct{ key []byte }
 func (b *vpBlock) Encrypt(dst, src []byte) {}
 func (b *vpBlock) Decrypt(dst, src []byte) {}
 
-func vpNewAESBlockCrypt(key []byte) (kcp.BlockCrypt, error) { return &vpBlock{key: key}, nil }
+func vpNewAESBlockCrypt(key []byte) (kcp.BlockCrypt, error) {
+	if n := len(key); n != 16 && n != 24 && n != 32 { // crypto/aes accepts AES-128/192/256 keys only
+		return nil, errors.New("crypto/aes: invalid key size")
+	}
+	return &vpBlock{key: key}, nil
+}
 
 // ---- helpers ----
 
